@@ -134,10 +134,31 @@ def worker_init(backend):
     _P["p"] = pendulum
 
 
+def _history(op, x):
+    """the result must depend on the value and the amount only: every other op is preceded by conversions that FAIL (a zone given
+    as a string to astimezone -> TypeError; a conversion whose result is not representable -> OverflowError) and by one that succeeds
+    on another value, the way a long-running process would have seen them"""
+    import zlib
+    p = _P["p"]
+    h = zlib.crc32(("hist" + repr(op)).encode())
+    if h & 1:
+        return
+    for attempt in ((lambda: x.astimezone("Europe/Paris")) if x.tzinfo is not None else (lambda: None),
+                    (lambda: p.DateTime(1, 1, 1, 0, 30, tzinfo=p.UTC).astimezone(p.fixed_timezone(-5 * 3600))),
+                    (lambda: p.DateTime(9999, 12, 31, 23, 30, tzinfo=p.UTC).in_timezone(p.fixed_timezone(5 * 3600)))):
+        try:
+            attempt()
+        except (TypeError, OverflowError, ValueError):
+            pass
+    if h & 2:
+        p.DateTime(2020, 6, 1, 12, tzinfo=p.UTC).in_timezone("Asia/Tokyo")
+
+
 def impl(op, backend):
     p = _P["p"]
     _, mode, zr, w, f, h, mi, s, us = op
     x = D.mk(zr, w, f)
+    _history(op, x)
     try:
         if mode == "add":
             r = x.add(hours=h, minutes=mi, seconds=s, microseconds=us)
